@@ -458,6 +458,9 @@ func (v *verifier) processSignature(ctx context.Context, sigBlob []byte, envelop
 		if err != nil {
 			return err
 		}
+		if metadata == nil {
+			return notation.ErrorVerificationInconclusive{Msg: fmt.Sprintf("verification plugin %q returned an empty get-plugin-metadata response", verificationPluginName)}
+		}
 
 		pluginVersion := metadata.Version
 
@@ -971,7 +974,11 @@ func executePlugin(ctx context.Context, installedPlugin pluginframework.VerifyPl
 		TrustPolicy:     policy,
 		PluginConfig:    pluginConfig,
 	}
-	return installedPlugin.VerifySignature(ctx, req)
+	response, err := installedPlugin.VerifySignature(ctx, req)
+	if err == nil && response == nil {
+		return nil, errors.New("verification plugin returned an empty verify-signature response")
+	}
+	return response, err
 }
 
 func verifyX509TrustedIdentities(policyName string, trustedIdentities []string, certs []*x509.Certificate) error {
